@@ -88,8 +88,13 @@ JudgeCase(e) ==
               THEN Msg("FAIL", e, [why |-> "committed documents not visible", class |-> cl])
               ELSE TRUE
       \* informational: the model of the code as built differs from the code
-      drift == IF ~Panicked(e) /\ (builtAdd # e.add1.ok \/ (e.add1.ok /\ builtCommit # e.commit1.ok))
-                 THEN Msg("DRIFT", e, [class |-> cl, model_add |-> builtAdd, model_commit |-> builtCommit,
+      \* (neither the validator as built nor the repaired one predicts what add/commit did)
+      idealAdd == AddAccepts(s, d, {})
+      drift == IF /\ ~Panicked(e)
+                  /\ \/ e.add1.ok \notin {builtAdd, idealAdd}
+                     \/ e.add1.ok /\ e.commit1.ok # CollectAccepts(s, d)
+                 THEN Msg("DRIFT", e, [class |-> cl, model_add_built |-> builtAdd, model_add_ideal |-> idealAdd,
+                                       model_collect |-> CollectAccepts(s, d),
                                        add |-> e.add1.ok, commit |-> e.commit1.ok])
                  ELSE TRUE
   IN j1 /\ j2 /\ j3 /\ j4 /\ drift
